@@ -82,6 +82,7 @@ func c11Run(w *W) {
 	}
 	var mu sync.Mutex // guards the harness' own shared state (engine F runs tasks in parallel)
 	var pipes []mangos.Pipe
+	openCtx := 0
 	s.SetPipeEventHook(func(ev mangos.PipeEvent, p mangos.Pipe) {
 		if ev == mangos.PipeEventAttached {
 			mu.Lock()
@@ -190,7 +191,16 @@ func c11Run(w *W) {
 						check("Send", c.Send([]byte("ctx")))
 						_, err := c.Recv()
 						check("Recv", err)
-						if op.a%2 == 0 {
+						// (at most a handful stay open: the socket's context set is a
+						// pointer-keyed map, whose iteration order is reproducible
+						// only while it fits one group of 8)
+						mu.Lock()
+						keep := op.a%2 == 1 && openCtx < 5
+						if keep {
+							openCtx++
+						}
+						mu.Unlock()
+						if !keep {
 							check("Close", c.Close())
 						}
 					}
